@@ -567,7 +567,11 @@ Definition run_alpha_invariant : Prop :=
     forall fuel pick md,
       kind_of (run_program fuel pick md q') = kind_of (run_program fuel pick md p') /\
       labels (final_cfg (run_program fuel pick md q')) = labels (final_cfg (run_program fuel pick md p')).
-(* Proved part: `run_chan_equivariant` (q = image of p under one globally injective identifier map; by
+(* Proved since: `C14Alpha.run_decl_alpha` — every declaration renamed by its OWN injective map (process
+   names kept), polarized modes; `RenameSimT.stepT_sim` — typed configurations, identifiers of
+   initialised and self names irrelevant for every transition.  Still open: two binders of ONE
+   declaration mapped to one identifier.
+   Proved part: `run_chan_equivariant` (q = image of p under one globally injective identifier map; by
    proofs/RenameExt.v this covers every map that is injective on the identifiers of p).  The proof
    obligations that remain for the general case: (1) `subst old new` respects `alpha` when `new` is
    fresh for the binders it passes (needs the scoping invariants the typechecker establishes — no
